@@ -38,6 +38,9 @@ pub fn one_plan(b: u64, plan: &Value, seed: u64, out: &mut Out) -> u64 {
     let vb = vote_b.clone();
     let all: Vec<([u8; 20], SocketAddrV4)> = ids.iter().enumerate().map(|(i, id)| (*id, SocketAddrV4::new(fake_ip(i), 6881))).collect();
     let nodes = krpc::compact_nodes(&all);
+    // not every node on the network reports the requester's address (the `ip` field is an extension): in two behaviours out of
+    // three, 2 resp. 3 of the 4 answering peers leave it out - the ones that do report still agree
+    let mute = match b % 3 { 1 => 2, 2 => 3, _ => 0 };
     let policy: Policy = Box::new(move |me, m, _w| {
         if me.idx == 4 {
             return Reply::Silent;
@@ -51,7 +54,7 @@ pub fn one_plan(b: u64, plan: &Value, seed: u64, out: &mut Out) -> u64 {
                 r.set("token", B::bytes(me.token()));
             }
         }
-        let mut msg = krpc::response(&m.tid, &me.id, r, Some(&voted));
+        let mut msg = krpc::response(&m.tid, &me.id, r, if me.idx < mute { None } else { Some(&voted) });
         // no version: the responders stay out of the signed-peers table
         msg.remove("v");
         Reply::One(msg, 1)
@@ -61,7 +64,7 @@ pub fn one_plan(b: u64, plan: &Value, seed: u64, out: &mut Out) -> u64 {
     let caddr = sim.nodes[c].addr;
     sim.tick_trace = Some(c);
     sim.tick_log.clear();
-    out.line(&json!({"e":"reset","b":b,"plan":plan}));
+    out.line(&json!({"e":"reset","b":b,"plan":plan,"peers_not_reporting":mute}));
     let mut lines = 1u64;
     let mut st = St { prev_active: BTreeSet::new(), names: HashMap::new(), next_name: 1, log_pos: 0, last_refresh_age: 0, prev: ("none".into(), true, false) };
     let mut calls: Vec<Call> = vec![];
